@@ -2591,8 +2591,7 @@ def _one_info_arguments_kw_defaults(self: fst.FST, static: onestatic, idx: int |
         prefix = ' = '
 
     else:
-        ln, col, _, _ = arg.f.loc
-        col += len(arg.arg)
+        _, _, ln, col = arg.f.loc  # end of the identifier in the source, may differ in length from the normalized one in the AST
         prefix = '='
 
     if default := self.a.kw_defaults[idx]:
